@@ -804,3 +804,124 @@ func (c *Ctx) ruleBlockingUnderLock() {
 		}
 	}
 }
+
+// ruleWaitGroupPairing: Add before go, Done on every path of the goroutine.
+func (c *Ctx) ruleWaitGroupPairing() {
+	r := c.R
+	rule := "E1d.waitgroup"
+	r.Rule(rule, "WaitGroup pairing in pkg/server: (a) every function that signals a WaitGroup does so on every path to its exits — by a deferred Done, or by a Done that all paths pass; (b) every go statement that starts such a function is dominated, in the starting function, by an Add on a WaitGroup; a goroutine that can finish without Done, or is started without Add, makes Wait block for ever or return early (leak or use-after-stop)", 8)
+	isWG := func(call *ssa.CallCommon, name string) bool {
+		callee := call.StaticCallee()
+		if callee == nil || callee.Name() != name || callee.Signature.Recv() == nil {
+			return false
+		}
+		n := ir.NamedOf(callee.Signature.Recv().Type())
+		return n != nil && n.Obj().Pkg() != nil && n.Obj().Pkg().Path() == "sync" && n.Obj().Name() == "WaitGroup"
+	}
+	signals := map[*ssa.Function]bool{}
+	for _, fn := range c.P.FuncsIn("pkg/server") {
+		if fn.Blocks == nil {
+			continue
+		}
+		var deferred []*ssa.Defer
+		marks := map[*ssa.BasicBlock]bool{}
+		nDone := 0
+		for _, b := range fn.Blocks {
+			for _, in := range b.Instrs {
+				switch x := in.(type) {
+				case *ssa.Defer:
+					if isWG(&x.Call, "Done") {
+						deferred = append(deferred, x)
+						nDone++
+					}
+				case *ssa.Call:
+					if isWG(&x.Call, "Done") {
+						marks[b] = true
+						nDone++
+					}
+				}
+			}
+		}
+		if nDone == 0 {
+			continue
+		}
+		signals[fn] = true
+		fk := ir.FuncKey(fn)
+		ok := false
+		for _, d := range deferred {
+			// a defer executed on every path: its block dominates every exit
+			all := true
+			for _, b := range fn.Blocks {
+				if b == fn.Recover {
+					continue
+				}
+				if ir.IsExit(b) && !d.Block().Dominates(b) {
+					all = false
+				}
+			}
+			if all {
+				ok = true
+			}
+		}
+		if !ok && len(marks) > 0 && mustPassThrough(fn.Blocks[0], func(b *ssa.BasicBlock) bool { return marks[b] }) {
+			ok = true
+		}
+		if ok {
+			r.Ok(rule, fk, "Done on every path", c.P.Pos(fn.Pos()), "deferred at entry or passed by all paths")
+		} else {
+			r.Bad(rule, fk, "Done on every path", c.P.Pos(fn.Pos()), "some path through the function reaches an exit without signalling the WaitGroup: the waiter blocks for ever")
+		}
+	}
+	// (b) go statements
+	n := map[string]int{}
+	for _, fn := range c.P.FuncsIn("pkg/server") {
+		for _, b := range fn.Blocks {
+			for _, in := range b.Instrs {
+				g, ok := in.(*ssa.Go)
+				if !ok {
+					continue
+				}
+				starts := false
+				for _, callee := range c.P.Callees(g) {
+					if signals[callee] {
+						starts = true
+					}
+				}
+				if !starts {
+					continue
+				}
+				fk := ir.OuterKey(fn)
+				n[fk]++
+				cons := fmt.Sprintf("go #%d", n[fk])
+				added := false
+				walk := func(f *ssa.Function) {
+					for _, b2 := range f.Blocks {
+						for _, in2 := range b2.Instrs {
+							if call, ok := in2.(*ssa.Call); ok && isWG(&call.Call, "Add") {
+								if f != fn || dominatesInstr(call, g) {
+									added = true
+								}
+							}
+						}
+					}
+				}
+				walk(fn)
+				if !added && fn.Parent() != nil {
+					// the Add may be in the enclosing function before the closure is invoked
+					for _, b2 := range fn.Parent().Blocks {
+						for _, in2 := range b2.Instrs {
+							if call, ok := in2.(*ssa.Call); ok && isWG(&call.Call, "Add") {
+								added = true
+							}
+						}
+					}
+				}
+				if added {
+					r.Ok(rule, fk, cons, c.P.InstrPos(g), "Add precedes the go statement")
+				} else {
+					r.Bad(rule, fk, cons, c.P.InstrPos(g), "a goroutine that signals a WaitGroup is started without a preceding Add: Wait can return before it finishes (or Done panics on a negative counter)")
+				}
+			}
+		}
+	}
+}
